@@ -55,4 +55,11 @@ def Routine.soundList : List Routine → Bool
   | c :: cs => c.sound && Routine.soundList cs
 end
 
+/-- a resource type the repetition cannot process under the given sequence -/
+def unprocessable (seq : Seq) : ResTy → Bool
+  | .other => true
+  | .qubits => (match seq with | .constant _ => false | _ => true)
+  | _ => false
+
+
 end Bartiq
